@@ -104,6 +104,11 @@ def ignore_grads_haiku(optimizer: Optimizer,
     trainable_params = hk.data_structures.to_mutable_dict(trainable_params)
     for module_name, name in non_trainable_names:
       trainable_params[module_name][name] = params[module_name][name]
+    if isinstance(params, dict):
+      # Plain nested dict in (what haiku returns nowadays, and what pickle
+      # restores): plain nested dict out, so that the params keep one container
+      # type across rounds and checkpoints.
+      return opt_state, trainable_params
     return opt_state, hk.data_structures.to_immutable_dict(trainable_params)
 
   return Optimizer(init, apply)
